@@ -2,6 +2,7 @@ package main
 
 import (
 	"fmt"
+	"os"
 	"sort"
 	"strconv"
 	"strings"
@@ -54,6 +55,12 @@ func subset(r *hx.Rand, universe []uint32, n int) []uint32 {
 func gen(r *hx.Rand) []string {
 	var lines []string
 	floatMode := r.Chance(1, 10)
+	// quantised: exponent 0 and one or two distinct durations per table, with very different
+	// multiplicities per size class (ties between normalised execution times of different classes)
+	quant := !floatMode && r.Chance(1, 4)
+	// sequential: a request is only started when no other is outstanding, so that the store
+	// writes the message back and drops it between requests (fail -> flush -> succeed)
+	sequential := r.Chance(1, 2)
 	kind := "fd"
 	if r.Chance(12, 100) {
 		kind = "fb"
@@ -62,8 +69,18 @@ func gen(r *hx.Rand) []string {
 	if r.Chance(12, 100) {
 		calc = "small"
 	}
+	// single: a platform queue with one size class (no strategies are computed; a failure is only
+	// remembered as last_seen_failure); biased towards fail -> write back -> succeed within the
+	// failure cache duration
+	single := r.Chance(18, 100)
 	hist := pickI64(r, 1, 2, 3, 4, 8, 32)
 	fcd := pickI64(r, 0, second, 3600*second)
+	if single && r.Chance(2, 3) {
+		fcd = 3600 * second
+	}
+	if single && r.Chance(3, 4) {
+		sequential = true
+	}
 	maxTO := pickI64(r, 3600*second, 7200*second)
 	defTO := pickI64(r, maxTO/4, maxTO, 0, 1800*second)
 	minTO := pickI64(r, 0, 1, 10*second, 100*second, 2*maxTO)
@@ -77,9 +94,12 @@ func gen(r *hx.Rand) []string {
 		universe = []uint32{1, 2, 3, 7, 10, 16, 1000, 4294967295}
 	} else {
 		e := r.Intn(3)
+		if quant {
+			e = 0
+		}
 		mul := [][2]int{{1, 1}, {3, 2}, {2, 1}, {5, 4}, {3, 1}, {1, 2}, {3, 4}}[r.Intn(7)]
 		eps := [][2]int{{1, 100}, {1, 500}, {1, 1000}, {1, 1000000}}[r.Intn(4)]
-		if r.Chance(1, 12) {
+		if !quant && r.Chance(1, 12) {
 			// far above the recommended 0.002: compared with the model, range of the probabilities not judged
 			eps = [][2]int{{1, 2}, {1, 10}}[r.Intn(2)]
 		}
@@ -90,20 +110,29 @@ func gen(r *hx.Rand) []string {
 			universe = append(universe, base<<uint(k))
 		}
 	}
-	nClasses := 1 + r.Pick(10, 25, 25, 20, 20)
+	nClasses := 2 + r.Pick(27, 27, 23, 23)
+	if single && !quant {
+		nClasses = 1
+	}
 	classes := subset(r, universe, nClasses)
+	if nClasses == 1 && r.Chance(1, 3) {
+		classes = []uint32{0} // workers that do not use size classes
+	}
 
 	// statistics tables
 	nKeys := 1 + r.Intn(3)
+	if single && r.Chance(1, 2) {
+		nKeys = 1
+	}
 	for k := 0; k < nKeys; k++ {
-		if r.Chance(1, 8) {
+		if r.Chance(1, 8) || (single && r.Chance(1, 2)) {
 			continue // never seen before: empty message
 		}
 		unit := pickI64(r, 1000000, second, 30*second, 600*second) / 4
 		lsf := "-"
 		// rich tables: every size class of the list has samples and the largest mostly succeeded, so that
 		// GetStrategies reaches the matrix and the power iteration
-		rich := r.Chance(2, 5)
+		rich := quant || r.Chance(2, 5)
 		lsfKind := r.Intn(4)
 		if rich && lsfKind == 1 {
 			lsfKind = 0
@@ -148,10 +177,22 @@ func gen(r *hx.Rand) []string {
 				pS, pF = 90, 5
 			}
 			var os []string
+			qv := [2]int64{unit * 4, unit * 8}
+			qw := r.Intn(5) // how often the first of the two values is used by this class (of 4)
+			if quant {
+				pS, pF = 92, 4
+				n = []int{1, 2, 3, 8, 20, 32}[r.Intn(6)]
+			}
 			for i := 0; i < n; i++ {
 				d := unit * int64(1+r.Intn(12))
 				if r.Chance(1, 20) {
 					d = 0
+				}
+				if quant {
+					d = qv[1]
+					if r.Intn(4) < qw {
+						d = qv[0]
+					}
 				}
 				x := r.Intn(100)
 				switch {
@@ -192,7 +233,7 @@ func gen(r *hx.Rand) []string {
 	unit := pickI64(r, 1000000, second, 30*second, 600*second) / 4
 	for nextID < nReq || len(open) > 0 {
 		now += int64(r.Intn(2000)) * second / 4
-		if nextID < nReq && (len(open) == 0 || r.Chance(1, 3)) {
+		if nextID < nReq && (len(open) == 0 || (!sequential && r.Chance(1, 3))) {
 			id := nextID
 			nextID++
 			key := r.Intn(nKeys)
@@ -250,7 +291,11 @@ func gen(r *hx.Rand) []string {
 				q.stage = 1
 			}
 		case q.stage >= 1 && q.stage <= 3:
-			switch r.Pick(50, 35, 15) {
+			wS, wF, wA := 50, 35, 15
+			if single {
+				wS, wF, wA = 42, 48, 10
+			}
+			switch r.Pick(wS, wF, wA) {
 			case 0:
 				cs := classes
 				switch x := r.Intn(100); {
@@ -291,6 +336,27 @@ func gen(r *hx.Rand) []string {
 	}
 	for k := 0; k < nKeys; k++ {
 		lines = append(lines, fmt.Sprintf("dump %d", k))
+	}
+	// Outcomes.IsFaster directly: few distinct values, so that runs of equal samples of
+	// different lengths meet
+	nIsFaster := r.Intn(3)
+	if os.Getenv("ISC_NO_ISFASTER") != "" {
+		nIsFaster = 0 // debugging aid: judge IsFaster only through GetStrategies
+	}
+	for k := nIsFaster; k > 0; k-- {
+		mk := func() string {
+			n := []int{0, 1, 2, 3, 5, 9, 32}[r.Intn(7)]
+			if n == 0 {
+				return "-"
+			}
+			vals := 1 + r.Intn(3)
+			p := make([]string, n)
+			for i := range p {
+				p[i] = strconv.FormatInt(unit*int64(1+r.Intn(vals)), 10)
+			}
+			return strings.Join(p, ",")
+		}
+		lines = append(lines, fmt.Sprintf("isfaster %d %d %s %s", r.Intn(4)*r.Intn(9), r.Intn(4)*r.Intn(9), mk(), mk()))
 	}
 	return lines
 }
